@@ -3,7 +3,6 @@
 The OpenQL kernel is an external object; its model is a GHOST LOG (sequence of entries kind/name/qubits/duration) and the
 assumed contracts of the four kernel methods the factories call (each appends one entry and changes nothing else)."""
 from pyvc.api import *
-from pyvc.world import V
 
 P = ["C15"]
 OP = REF("ICircuitOperation")
@@ -18,6 +17,7 @@ NEW = f"{LOG}[len({OLD})]"
 
 
 def _gate_dispatch(args, kwargs):
+    from pyvc.world import V      # (lazy: contracts are also imported by the native replay, which has no z3)
     q = args[1] if len(args) > 1 else kwargs.get("qubits", kwargs.get("q0"))
     return "QLKernel.gate:int" if isinstance(q, V) and q.kind == "int" else "QLKernel.gate:list"
 
